@@ -43,7 +43,9 @@ def enc : PyVal → JVal
   | .str s => .str s
   | .list l => .arr (encList l)
   | .tuple l => .arr (encList l)
-  | .dict d => .obj (encKVs d)
+  | .dict d =>
+    -- a story's own dict that uses the reserved key is wrapped (`{"_type": "dict", "_data": {...}}`)
+    if d.any (·.1 == "_type") then .obj [("_type", .str "dict"), ("_data", .obj (encKVs d))] else .obj (encKVs d)
   | .obj cls mod .auto attrs =>
     .obj [("_type", .str cls), ("_module", .str mod), ("_data", .obj (encPublic attrs))]
   | .obj cls mod .custom attrs =>
@@ -74,6 +76,7 @@ def dec (ctx : Registry) : JVal → PyVal
     | none => .dict (decKVs ctx d)
     | some (.str "string_repr") =>
       (match d.lookup "_value" with | some (.str s) => .str s | _ => .str "")
+    | some (.str "dict") => .dict ((decDataOf ctx d).getD [])
     | some (.str ty) =>
       let data : List (String × PyVal) := (decDataOf ctx d).getD []
       (match ctx.lookup ty with
@@ -110,16 +113,16 @@ def normKVs : List (String × PyVal) → List (String × PyVal)
   | (k, v) :: rest => (k, norm v) :: normKVs rest
 end
 
--- the supported domain: string-keyed dicts that do not use the reserved key `_type`, instances of
+-- the supported domain: string-keyed dicts (also those that use the key `_type`), instances of
 -- registered classes (with the registered module and kind), plain attribute objects without
 -- underscore attributes (as the cookbook documents), nested in any combination to any depth
 mutual
 def Supported (ctx : Registry) : PyVal → Bool
   | .list l => supList ctx l
   | .tuple l => supList ctx l
-  | .dict d => !(d.any (·.1 == "_type")) && supKVs ctx d
-  | .obj c m .auto a => ctx.lookup c == some (m, .auto) && c != "string_repr" && a.all (fun kv => isPublic kv.1) && supKVs ctx a
-  | .obj c m .custom a => ctx.lookup c == some (m, .custom) && c != "string_repr" && supKVs ctx a
+  | .dict d => supKVs ctx d
+  | .obj c m .auto a => ctx.lookup c == some (m, .auto) && c != "string_repr" && c != "dict" && a.all (fun kv => isPublic kv.1) && supKVs ctx a
+  | .obj c m .custom a => ctx.lookup c == some (m, .custom) && c != "string_repr" && c != "dict" && supKVs ctx a
   | _ => true
 def supList (ctx : Registry) : List PyVal → Bool
   | [] => true
